@@ -150,11 +150,17 @@ def check_list(ctx, specs):
 
 # ---- malformed ---------------------------------------------------------------------------------------
 def _empty_half(s):
-    """'', 'C/', 'C|', '|C', 'C//G' ... and a polychord half that is the empty chord ('C|NC')"""
+    """'', 'C/', 'C|', '|C', 'C//G' ..."""
     parts = s.split("|")
-    if len(parts) > 1 and any(R.normalise(p) in ("NC", "N.C.") for p in parts):
-        return True
     return s == "" or any(seg == "" for part in parts for seg in part.split("/"))
+
+
+def check_poly_nc(ctx, case):
+    """a polychord whose second half is the empty chord is just the first chord ('Y's notes followed by X's notes')"""
+    plain = chords.from_shorthand(case)
+    r = ctx.ok("poly-nc", chords.from_shorthand, case + "|NC")
+    ctx.check(failed(r) or list(r) == list(plain), "poly-nc/value", lambda: "%r|NC -> %r, expected %r" % (case, r, plain))
+    ctx.note_case(len(case) > 1, ["poly:nc-half"])
 
 
 def check_malformed(ctx, case):
@@ -203,7 +209,7 @@ def check_tables(ctx, root):
     ctx.note_case(len(root) > 1, ["tables"])
 
 
-CHECKS = {"formula": check_formula, "chord": check_chord, "list": check_list, "malformed": check_malformed,
+CHECKS = {"formula": check_formula, "chord": check_chord, "list": check_list, "malformed": check_malformed, "poly_nc": check_poly_nc,
           "tables": check_tables}
 
 
@@ -234,6 +240,7 @@ def sub_formula(ctx, shard, n):
     if shard == 0:
         ctx.enumerate("tables", check_tables, roots)
         ctx.enumerate("chord", check_chord, [["nc", "NC"], ["nc", "N.C."]])
+        ctx.enumerate("poly_nc", check_poly_nc, [r + s for r in ("C", "F#", "Bbb") for s in ("", "m7", "dim7", "13", "sus4")])
 
 
 def sub_alias(ctx, shard, n):
